@@ -174,6 +174,18 @@ def init_tensor(dtype, payload, storage, name="k"):
     return t
 
 
+def expected_payload(dtype, payload):
+    """-> (dims, element bit patterns, element width in bits, packed little-endian bytes) for the oracle."""
+    dims, vals = _elems(dtype, payload)
+    w = DT[dtype][0]
+    if dtype == "STRING":
+        return dims, vals, 0, None
+    if dtype in ("COMPLEX64", "COMPLEX128"):
+        w //= 2
+    raw = _pack_sub_byte(vals, w) if w < 8 else b"".join(v.to_bytes(w // 8, "little") for v in vals)
+    return dims, vals, w, raw
+
+
 def all_inits():
     out = []
     for d in DT:
